@@ -33,6 +33,9 @@ pub enum Action {
     Park,
     /// Call the closure index registered under this name.
     Yield,
+    /// Sleep for a pseudo-random time of up to the given number of
+    /// microseconds on about every other arrival (lock-acquisition jitter).
+    Jitter(u64),
 }
 
 #[derive(Default)]
@@ -56,6 +59,7 @@ pub struct Hooks {
     /// When non-zero: SIGKILL the process at the n-th kill point.
     kill_at: AtomicU64,
     kill_seen: AtomicU64,
+    jitter: AtomicU64,
     kill_log: Mutex<Option<std::fs::File>>,
     kill_prefix: Mutex<Vec<String>>,
     event_log: Mutex<Option<std::fs::File>>,
@@ -68,6 +72,7 @@ impl Hooks {
             cv: Condvar::new(),
             kill_at: AtomicU64::new(0),
             kill_seen: AtomicU64::new(0),
+            jitter: AtomicU64::new(0),
             kill_log: Mutex::new(None),
             kill_prefix: Mutex::new(vec!["fs.".into(), "archive.".into()]),
             event_log: Mutex::new(None),
@@ -186,6 +191,8 @@ impl Hooks {
         *self.kill_log.lock().unwrap() = log;
     }
 
+    pub fn seed_jitter(&self, seed: u64) { self.jitter.store(seed, Ordering::SeqCst); }
+
     pub fn kill_points_seen(&self) -> u64 { self.kill_seen.load(Ordering::SeqCst) }
 }
 
@@ -214,7 +221,7 @@ impl Handler for Hooks {
         let action = {
             let mut i = self.inner.lock().unwrap();
             *i.counts.entry(name.to_string()).or_insert(0) += 1;
-            if i.record {
+            if i.record && !name.starts_with("history.") {
                 let thread = format!("{:?}", std::thread::current().id());
                 i.events.push(Event { t: Instant::now(), mono: mono_ns(), name: name.into(), detail: detail.into(), thread });
             }
@@ -224,6 +231,11 @@ impl Handler for Hooks {
             None => {}
             Some(Action::Sleep(d)) => std::thread::sleep(d),
             Some(Action::Yield) => std::thread::yield_now(),
+            Some(Action::Jitter(max_us)) => {
+                let n = self.jitter.fetch_add(0x9E37_79B9_7F4A_7C15, Ordering::Relaxed);
+                let mut x = n ^ (n >> 31); x = x.wrapping_mul(0xBF58_476D_1CE4_E5B9); x ^= x >> 29;
+                if x & 1 == 0 { std::thread::sleep(Duration::from_micros((x >> 8) % max_us.max(1))); } else if x & 2 == 0 { std::thread::yield_now(); }
+            }
             Some(Action::Park) => {
                 let mut i = self.inner.lock().unwrap();
                 *i.arrived.entry(name.to_string()).or_insert(0) += 1;
